@@ -9,7 +9,7 @@ import subprocess
 from multiprocessing import Pool
 
 HOST = "hh"
-BASES = ["p", "q", "d/r", "d/m", "d/z", "d/e/s", "sp ace", "uni-ü", "q'uote", "-dash", "dot.file.ext", "d/new\nline"]
+BASES = ["p", "q", "d/r", "d/m", "d/z", "d/e/s", "sp ace", "uni-ü", "q'uote", "-dash", "dot.file.ext", "d/new\nline", "d.txt", "d-x", "d e"]
 CONTENT = {1: b"one-1\n", 2: b"two-2\n", 3: b"three\n" * 3, 4: b"", 5: b"0123456789abcdef" * 20000}
 BY_BYTES = {v: k for k, v in CONTENT.items()}
 CFG = {}
@@ -204,6 +204,44 @@ def pair_identity(job):
              "completed": completed, "nplan": -1, "stderr": (repr(n1) + " vs " + repr(n2) + " banner=" + str(b"SAFE no-base" in p2.stderr))}]
 
 
+def pair_relative(job):
+    """C07 'archive of another pair', spelled relatively: `bisync <abs docs> backup` is run from inside two different
+    directories (a root that does not exist yet is created and the command repeated, as a user would).  The second
+    `backup` is another directory: whatever was recorded for the first pair must not be read as its base."""
+    k, _ = job
+    d = os.path.join(CFG["dir"], f"rel{k}")
+    shutil.rmtree(d, ignore_errors=True)
+    docs, home = os.path.join(d, "docs"), os.path.join(d, "home")
+    for x in (docs, home, os.path.join(d, "cwd1"), os.path.join(d, "cwd2")):
+        os.makedirs(x)
+    open(os.path.join(docs, "f"), "wb").write(CONTENT[1])
+    open(os.path.join(docs, "g"), "wb").write(CONTENT[2])
+    spelled = ["backup", "./backup", "sub/../backup", "backup/"][k % 4]
+
+    def run_in(cwd):
+        p = subprocess.run([CFG["copia"], "bisync", docs, spelled], cwd=cwd, env=_env(home), stdout=subprocess.PIPE, stderr=subprocess.PIPE, timeout=60)
+        if p.returncode not in (0,) and not os.path.isdir(os.path.join(cwd, "backup")):
+            os.makedirs(os.path.join(cwd, "backup"), exist_ok=True)
+            os.makedirs(os.path.join(cwd, "sub"), exist_ok=True)
+            p = subprocess.run([CFG["copia"], "bisync", docs, spelled], cwd=cwd, env=_env(home), stdout=subprocess.PIPE, stderr=subprocess.PIPE, timeout=60)
+        return p
+    os.makedirs(os.path.join(d, "cwd1", "sub"))
+    os.makedirs(os.path.join(d, "cwd2", "sub"))
+    run_in(os.path.join(d, "cwd1"))
+    a0 = tree(docs)
+    b0 = tree(os.path.join(d, "cwd2", "backup")) if os.path.isdir(os.path.join(d, "cwd2", "backup")) else {}
+    p2 = run_in(os.path.join(d, "cwd2"))
+    a1 = tree(docs)
+    b1 = tree(os.path.join(d, "cwd2", "backup")) if os.path.isdir(os.path.join(d, "cwd2", "backup")) else {}
+    names = sorted(set(a0) | set(b0) | set(a1) | set(b1))
+    fam = [[j + 1 for j, m2 in enumerate(names) if m2 == n or m2.startswith(n + ".conflict-")] for n in names]
+    arr = lambda t: [t.get(n, 0) for n in names]
+    completed = p2.returncode == 0 or (p2.returncode == 1 and b"had conflicts" in p2.stderr)
+    return [{"seed": f"pair-relative-{k}", "step": 0, "names": names, "fam": fam, "A": arr(a0), "B": arr(b0), "E": [0] * len(names), "tr": False, "stg": False,
+             "last": [0] * len(names), "A2": arr(a1), "B2": arr(b1), "altA2": arr(a1), "altB2": arr(b1), "E2": arr(a1) if completed else [0] * len(names),
+             "tr2": completed, "exit": p2.returncode, "completed": completed, "nplan": -1, "stderr": f"spelled={spelled!r} exit={p2.returncode} " + p2.stderr.decode("utf8", "replace")[-120:]}]
+
+
 def tie_order(job):
     """C06 'swapping which directory is named first does not change which bytes end up at which path', at its hardest:
     the two versions have the SAME BLAKE3 and differ in entry type only - a regular file holding the text T on one side,
@@ -276,6 +314,8 @@ def run_all(copia, root, jobs, nproc=12, pairs=False, link_target=None):
             out.extend(r)
         if pairs:
             for r in pool.imap_unordered(pair_identity, [(k, None) for k in range(len(PAIR_NAMES))]):
+                out.extend(r)
+            for r in pool.imap_unordered(pair_relative, [(k, None) for k in range(4)]):
                 out.extend(r)
             if link_target:
                 for r in pool.imap_unordered(tie_order, [(k, None) for k in range(4)]):
